@@ -245,7 +245,7 @@ mod verif_udp {
         }
     }
 
-    //@H name=c12_udp_flush_after_interference props=C06,C12,C20 bound="capacity 8, one 2-byte metric, at most one interfering flush() of another thread at a lock acquisition" fn=BufferedUdpMetricSink::emit,flush :: thread-modular: whatever whole flush() calls other threads run while this thread waits for the sink lock, after this thread's emit returned Ok and its own flush returned Ok the metric has been handed to the socket
+    //@H name=c12_udp_flush_after_interference props=C12 bound="capacity 8, one 2-byte metric, at most one interfering flush() of another thread at a lock acquisition" fn=BufferedUdpMetricSink::emit,flush :: thread-modular: whatever whole flush() calls other threads run while this thread waits for the sink lock, after this thread's emit returned Ok and its own flush returned Ok the metric has been handed to the socket
     #[kani::proof]
     #[kani::unwind(4)]
     #[kani::stub(std::net::UdpSocket::send_to, send_to_stub)]
